@@ -89,8 +89,10 @@ pub fn run_server(args: &[String]) -> i32 {
             files.push((format!("schema/s{k}.graphql"), render_ts_doc(&json!({"defs": chunk})).0));
         }
         files.push(("ops/q.graphql".into(), c["operation"].as_str().unwrap_or("query Q { __typename }\n").to_string()));
+        let plugins = if c["modelPlugin"].as_bool().unwrap_or(false) { "    plugins:\n      - \"nitrogql:model-plugin\"\n" } else { "" };
         let cfg = format!(
-            "schema: ./schema/*.graphql\ndocuments: ./ops/*.graphql\nextensions:\n  nitrogql:\n    generate:\n      schemaOutput: ./gen/schema.d.ts\n      serverGraphqlOutput: ./gen/server.ts\n{}",
+            "schema: ./schema/*.graphql\ndocuments: ./ops/*.graphql\nextensions:\n  nitrogql:\n{}    generate:\n      schemaOutput: ./gen/schema.d.ts\n      serverGraphqlOutput: ./gen/server.ts\n{}",
+            plugins,
             c["config"].as_str().unwrap_or("")
         );
         files.push(("graphql.config.yaml".into(), cfg));
@@ -114,7 +116,9 @@ pub fn run_server(args: &[String]) -> i32 {
                 },
             }
         };
-        out.emit(&json!({"ev": "ServerSchema", "model": model, "out": o, "cptab": cptab(&[model])}));
+        // what the server schema must denote: the input model, or (model plugin) the input minus the plugin's directive applications
+        let expect = if c["expectModel"].is_object() { &c["expectModel"] } else { model };
+        out.emit(&json!({"ev": "ServerSchema", "model": expect, "out": o, "cptab": cptab(&[expect]), "modelPlugin": c["modelPlugin"].as_bool().unwrap_or(false)}));
         let _ = std::fs::remove_dir_all(&dir);
     }
     0
